@@ -601,6 +601,80 @@ pub fn check<S: Src>(s: &mut S) {
     assert!(x.partial_cmp(&y) == Some((a >> 1, b >> 1, c).cmp(&(d >> 1, e >> 1, f))), "partial_cmp");
 }
 """, unwind=18)
+    # 13. the bindings of the enum match arms: field names and items in scope spelled like them
+    add("binders|field-named-_f-and-consts-named-like-bindings", "enum fields called _f / f / _self / l / r and constants in scope spelled like the bindings of the generated match arms (l_0, r_0, _0, _self_0, _other_x, ...)",
+        """
+pub const l_0: u8 = 0;
+pub const r_0: u8 = 0;
+pub const _0: u8 = 0;
+pub const _self_0: u8 = 0;
+pub const _other_0: u8 = 0;
+pub const _this_0: u8 = 0;
+pub const l_x: u8 = 0;
+pub const r_x: u8 = 0;
+pub const _x: u8 = 0;
+pub const _self_x: u8 = 0;
+pub const _other_x: u8 = 0;
+pub const _this_x: u8 = 0;
+#[derive_ex(Clone, PartialEq, Eq, PartialOrd, Ord, Hash)]
+pub enum B1 { A(u8), B { x: u8 }, C }
+#[derive_ex(Debug)]
+pub enum B2 { V { _f: F, f: F }, W(F) }
+#[derive_ex(Clone, PartialEq, PartialOrd, Hash)]
+pub enum B3 { V { _f: u8, f: u8, _self: u8, _other: u8, l: u8, r: u8 }, W(u8) }
+pub mod twin {
+    use crate::support::F;
+    #[derive(Debug)]
+    pub enum B2 { V { _f: F, f: F }, W(F) }
+}
+""", CMP_ORACLE + """
+fn k1(v: &B1) -> [u8; 2] { match v { B1::A(a) => [0, *a], B1::B { x } => [1, *x], B1::C => [2, 0] } }
+pub fn check<S: Src>(s: &mut S) {
+    use ::core::fmt::Write;
+    let (a, b) = (s.u8(), s.u8());
+    let mk = |s: &mut S, v: u8| match s.u8() % 3 { 0 => B1::A(v), 1 => B1::B { x: v }, _ => B1::C };
+    let (p, q) = (mk(s, a), mk(s, b));
+    let e = lex(&k1(&p), &k1(&q));
+    assert!((p == q) == (e == Ordering::Equal) && p.partial_cmp(&q) == Some(e) && p.cmp(&q) == e, "cmp-with-consts-named-like-bindings");
+    let c = p.clone();
+    assert!(k1(&c) == k1(&p), "clone-with-consts-named-like-bindings");
+    let mut w = q.clone();
+    w.clone_from(&p);
+    assert!(k1(&w) == k1(&p), "clone_from-with-consts-named-like-bindings");
+    let mut h = Rec::new();
+    Hash::hash(&p, &mut h);
+    assert!(h.len == if matches!(p, B1::C) { 0 } else { 1 } && (matches!(p, B1::C) || h.buf[0] == a), "hash-with-consts-named-like-bindings");
+    let (x, y) = if s.bool() { (B2::V { _f: F(a), f: F(b) }, twin::B2::V { _f: F(a), f: F(b) }) } else { (B2::W(F(a)), twin::B2::W(F(a))) };
+    let mut k1 = Sink::new();
+    let mut k2 = Sink::new();
+    let _ = write!(k1, "{:?}", x);
+    let _ = write!(k2, "{:?}", y);
+    assert!(k1.same(&k2), "debug-with-field-named-_f");
+    let z = B3::V { _f: a, f: b, _self: a, _other: b, l: a, r: b };
+    let z2 = B3::V { _f: a, f: b, _self: a, _other: s.u8(), l: a, r: b };
+    assert!(z.clone() == z && (z == z2) == matches!(z2, B3::V { _other, .. } if _other == b) && z.partial_cmp(&z2).is_some(), "clone-eq-with-fields-named-like-prefixes");
+}
+""", unwind=66)
+    # 14. type parameters called like the primitive types the expansion writes in its signatures
+    add("params|type-parameters-called-bool-and-usize", "type parameters called bool / usize (the generated signatures say `-> bool` and `-> usize`; the standard derives accept such types)",
+        """
+#[derive_ex(Clone, PartialEq, Eq, PartialOrd, Ord, Hash)]
+pub struct P1<bool, usize> { pub a: bool, #[ord(reverse)] pub b: usize }
+#[derive_ex(Clone, PartialEq, Eq, PartialOrd, Ord, Hash)]
+pub enum P2<usize, bool> { A(usize), B(bool), C }
+""", CMP_ORACLE + """
+pub fn check<S: Src>(s: &mut S) {
+    let (a, b, c, d) = (s.u8(), s.u8(), s.u8(), s.u8());
+    let (x, y) = (P1::<u8, u8> { a, b }, P1::<u8, u8> { a: c, b: d });
+    let e = lex(&[a, 255 - b], &[c, 255 - d]);
+    assert!((x == y) == (e == Ordering::Equal) && x.partial_cmp(&y) == Some(e) && x.cmp(&y) == e, "struct-with-type-parameters-called-bool-usize");
+    let mk = |s: &mut S, v: u8| match s.u8() % 3 { 0 => P2::<u8, u8>::A(v), 1 => P2::B(v), _ => P2::C };
+    let (p, q) = (mk(s, a), mk(s, b));
+    let k = |v: &P2<u8, u8>| match v { P2::A(a) => [0, *a], P2::B(a) => [1, *a], P2::C => [2, 0] };
+    let e2 = lex(&k(&p), &k(&q));
+    assert!((p == q) == (e2 == Ordering::Equal) && p.partial_cmp(&q) == Some(e2) && p.cmp(&q) == e2, "enum-with-type-parameters-called-usize-bool");
+}
+""", unwind=18)
     return P
 
 
